@@ -1,5 +1,9 @@
 #[cfg(not(target_arch = "wasm32"))]
 mod ffi;
+#[cfg(kani)]
+pub mod verif_ffi {
+    pub use super::ffi::*;
+}
 mod log_override;
 mod status_code_update;
 #[cfg(feature = "router")]
@@ -27,6 +31,9 @@ use serde::{Deserialize, Serialize};
 #[cfg(kani)]
 pub use log_override::LogOverride as VerifLogOverride;
 pub use status_code_update::StatusCodeUpdate;
+#[cfg(kani)]
+use crate::verif_shim::map::HashMap;
+#[cfg(not(kani))]
 use std::collections::HashMap;
 use std::fmt::Debug;
 use std::iter::FromIterator;
@@ -215,6 +222,9 @@ impl Action {
 
         if let Some(sampling) = rule.source.sampling {
             let percent_rand = sampling.clamp(0, 100);
+            #[cfg(kani)]
+            let random_value = (crate::verif_shim::random_u32() % 100) + 1;
+            #[cfg(not(kani))]
             let random_value = (rand::random::<u32>() % 100) + 1;
 
             match (request.sampling_override, random_value > percent_rand) {
